@@ -612,7 +612,9 @@ func init() {
 										sp.Kind, sp.Verify = "p2pk", true
 									}
 									if scriptflag.Flag(fl)&scriptflag.UTXOAfterGenesis != 0 && r.Chance(1, 4) {
-										sp.LockTail = prng.Pick(r, [][]byte{{0x6a}, {0x6a, 0x42}, {0x6a, 0x01}, {0x6a, 0x01, 0x42}, {0x6a, 0xac, 0x4c}, {0x6a, 0x05, 0x01, 0x02}, {0x6a, 0x51, 0x52, 0x53, 0x54}})
+										sp.LockTail = prng.Pick(r, [][]byte{{0x6a}, {0x6a, 0x42}, {0x6a, 0x01}, {0x6a, 0x01, 0x42}, {0x6a, 0xac, 0x4c}, {0x6a, 0x05, 0x01, 0x02}, {0x6a, 0x51, 0x52, 0x53, 0x54},
+											{0x6a, 0xab}, {0x6a, 0xab, 0x01, 0x02}, {0x6a, 0x01, 0xab, 0xab}, {0x6a, 0x51, 0xab, 0x52},
+											{0x6a, 0xab, 0x05, 0x01}, {0x6a, 0x05, 0x01, 0xab}, {0x6a, 0xab, 0xab, 0x4c}, {0x6a, 0x4c, 0x02, 0xab, 0xab, 0xab}, {0x6a, 0x4d, 0x01, 0x00, 0xab, 0xab, 0x4e, 0xab}})
 									}
 									if sp.LockTail == nil && k%3 == 1 { // data pushes in a wider form than necessary behind the check: the script code is hashed as it is written
 										sp.LockTail = [][]byte{{0x4c, 0x01, 0x07, 0x75}, {0x4d, 0x02, 0x00, 0xaa, 0xbb, 0x75}, {0x4e, 0x01, 0x00, 0x00, 0x00, 0x09, 0x75}, {0x4c, 0x00, 0x75}, {0x01, 0x05, 0x75}, {0x4c, 0x03, 0x01, 0x02, 0x03, 0x4d, 0x01, 0x00, 0x51, 0x6d}}[(k/3+sepPos+7)%6]
